@@ -1,7 +1,8 @@
 (** C07 — Any string is expressible in expression syntax; bad expressions fail
     cleanly. Statements only; proofs are in Proofs/Unquote.v, Proofs/Tok.v,
     Proofs/FilterParse.v, Proofs/ProjParse.v, Proofs/TokStream.v,
-    Proofs/FilterReject.v, Proofs/ProjReject.v, Proofs/ReDelim.v.
+    Proofs/FilterReject.v, Proofs/ProjReject.v, Proofs/ReDelim.v,
+    Proofs/ExprSpec.v (declarative clauses of Model/ExprSpec.v).
 
     [is_space] stands for unicode.IsSpace and [re_ok] for "regexp.Compile
     succeeds"; the theorems hold for every such pair of functions, the
@@ -11,7 +12,8 @@
     0x20..0x7e). *)
 From Perf Require Import Base.Bytes Base.Rune Model.Unquote Model.Tok Model.FilterAst
   Model.FilterParse Model.ProjParse Proofs.Unquote Proofs.Tok Proofs.FilterParse Proofs.ProjParse
-  Proofs.TokStream Proofs.FilterReject Proofs.ProjReject Proofs.ReDelim.
+  Proofs.TokStream Proofs.FilterReject Proofs.ProjReject Proofs.ReDelim
+  Model.ExprSpec Proofs.ExprSpec.
 
 (** the model of strconv.Unquote undoes the canonical quoting of any byte string *)
 Theorem C07_unquote_cquote : forall s, unquote (cquote s) = Some s.
@@ -37,7 +39,10 @@ Theorem C07_filter_denotes_string :
 Proof. exact filter_denotes_string. Qed.
 Print Assumptions C07_filter_denotes_string.
 
-(** ... and benchproc.NewFilter accepts it unless the key is empty or .config *)
+(** ... and benchproc.NewFilter accepts it unless the key is .config -- or
+    empty: the statement promises ANY key string, the code refuses the empty
+    one (known finding C07_empty_key_refused, [C07_any_key_usable_refuted]
+    below) *)
 Theorem C07_new_filter_denotes_string :
   forall is_space re_ok, is_space 34%N = false ->
   forall k v, k <> [] -> k <> key_config ->
@@ -59,6 +64,23 @@ Theorem C07_new_projection_denotes_string :
   new_projection is_space re_ok (cquote k) = Ok [mkField k ord_first [] 0 (length k)].
 Proof. exact new_projection_denotes_string. Qed.
 Print Assumptions C07_new_projection_denotes_string.
+
+(** KNOWN FINDING C07_empty_key_refused: "any key string whatsoever can be
+    used": not the empty one.  The syntax layer reads "":"v" and "" as the
+    statement says, the semantic layer (NewFilter, ProjectionParser.Parse)
+    refuses both at offset 0 -- and the statement lists only .config in a
+    filter and .unit in a projection as refused. *)
+Example C07_any_key_usable_refuted :
+  exists k v : bytes,
+    k <> key_config /\ k <> key_unit
+    /\ parse_filter go_is_space (fun _ => true) (cquote k ++ c_colon :: cquote v) = Ok (FMatch k (MLit v) 0)
+    /\ new_filter go_is_space (fun _ => true) (cquote k ++ c_colon :: cquote v) = Err 0
+    /\ parse_projection go_is_space (fun _ => true) (cquote k) = Ok [mkField k ord_first [] 0 (length k)]
+    /\ new_projection go_is_space (fun _ => true) (cquote k) = Err 0.
+Proof.
+  exists [], [x76]. split; [discriminate|]. split; [discriminate|].
+  repeat split; vm_compute; reflexivity.
+Qed.
 
 (** an unquoted word denotes exactly its bytes: if, in the text w ++ rest, the
     word w splits into whole runes none of which is a space, an operator
@@ -90,6 +112,37 @@ Proof.
   apply (runes_cons go_is_space _ [xe5; x85; xa5] [] 20837%N); try reflexivity; [discriminate|].
   constructor.
 Qed.
+
+(** "whenever it contains none of the DOCUMENTED special characters": which
+    characters those are is read from the package documentation
+    (Model/ExprSpec.v: [docsyn], [doc_bare]).  The documentation of golang/perf
+    named only the blank and ( ) : @ , as ending a word ([doc_pinned]), while
+    the tokenizer ends a word at every Unicode white space ([C07_bare_word_ok]
+    needs [runes_in], which excludes them): under that documentation the word
+    a TAB b is promised to work and does not.  Repaired in the documentation
+    (hooks/fix_c07_doc_bareword_white_space.diff, [doc_repaired]): such a word
+    is no longer promised. *)
+Example C07_pinned_documentation_refuted :
+  exists w : bytes,
+    doc_bare go_is_space doc_pinned true w = true
+    /\ doc_bare go_is_space doc_pinned false w = true
+    /\ parse_filter go_is_space (fun _ => true) (bs "k:" ++ w) = Err 4
+    /\ parse_filter go_is_space (fun _ => true) (w ++ bs ":v") = Err 0
+    /\ parse_projection go_is_space (fun _ => true) w = Ok [mkField [x61] ord_first [] 0 1; mkField [x62] ord_first [] 2 3]
+    /\ doc_bare go_is_space doc_repaired true w = false
+    /\ doc_bare go_is_space doc_repaired false w = false.
+Proof. exists [x61; x09; x62]. repeat split; vm_compute; reflexivity. Qed.
+
+(** the same for the other white space the documentation did not name: U+0085
+    (c2 85), U+00A0 (c2 a0), U+2003 (e2 80 83), line feed *)
+Example C07_pinned_documentation_refuted_more :
+  forallb (fun sp : bytes =>
+    let w := x61 :: sp ++ [x62] in
+    doc_bare go_is_space doc_pinned true w
+    && negb (doc_bare go_is_space doc_repaired true w)
+    && match parse_filter go_is_space (fun _ => true) (bs "k:" ++ w) with Err _ => true | _ => false end)
+    [[xc2; x85]; [xc2; xa0]; [xe2; x80; x83]; [x0a]] = true.
+Proof. vm_compute. reflexivity. Qed.
 
 (** parsing any text whatsoever ends with a tree or an error: the fuel of the
     recursive-descent model never runs out, including on the paths the code
@@ -287,6 +340,36 @@ Theorem C07_unterminated_regexp_iff :
     /\ q = p ++ c_fslash :: s /\ off = length p.
 Proof. exact filter_tokens_regexp_fault. Qed.
 Print Assumptions C07_unterminated_regexp_iff.
+
+(** the same clause with a condition that does not mention the scanner
+    (Model/ExprSpec.v, the one the judge uses): after the opening slash there
+    is no slash at all, or every slash has an odd number of backslashes right
+    in front of it and there is no backslash-Q *)
+Theorem C07_unterminated_regexp_declarative :
+  forall s, re_unterminated s = true -> re_scan s 0 0 false = None.
+Proof. exact re_unterminated_no_delim. Qed.
+Print Assumptions C07_unterminated_regexp_declarative.
+
+Theorem C07_rejects_unterminated_regexp_declarative :
+  forall is_space re_ok q ts st r s,
+  filter_lexes is_space re_ok q ts st r -> lmode st = true ->
+  skip_spaces is_space r 0 = c_fslash :: s -> re_unterminated s = true ->
+  rejected (parse_filter is_space re_ok q) q.
+Proof. exact rejects_unterminated_regexp_decl. Qed.
+Print Assumptions C07_rejects_unterminated_regexp_declarative.
+
+(** and an accepted regexp value is the text between its delimiters: what the
+    scanner cuts off is followed by a slash *)
+Theorem C07_regexp_value_between_delimiters :
+  forall s i, re_scan s 0 0 false = Some i -> re_delimited s (firstn i s) = true.
+Proof. exact re_scan_delimited. Qed.
+Print Assumptions C07_regexp_value_between_delimiters.
+
+Example C07_unterminated_regexp_declarative_example :
+  re_unterminated (bs "b") = true /\ re_unterminated (bs "a\/b\\\/") = true
+  /\ re_unterminated (bs "a\\/") = false /\ re_unterminated (bs "\Qa\/") = false
+  /\ re_unterminated (bs "\Qa") = true /\ re_unterminated (bs "[/]") = false.
+Proof. repeat split; vm_compute; reflexivity. Qed.
 
 (** a:/b has no second slash; in a:/(/ x the second slash is inside an open
     group and does not close the regexp; in key position a slash is an
